@@ -90,7 +90,12 @@ class Check:
         try:
             return fn()
         except AnalysisError as e:
-            self.undecided(rule, construct, "analysis error: %s" % e, loc)
+            v = getattr(e, "violation", None)
+            if v is not None:
+                # an analysis that cannot proceed BECAUSE the construct it met is itself the defect
+                self.violation(v[0], v[1], v[2], loc, key=v[3])
+            else:
+                self.undecided(rule, construct, "analysis error: %s" % e, loc)
             return None
 
 
